@@ -173,7 +173,7 @@ PIDS = ("C02", "C03", "C04", "C05", "C06", "C07", "C08", "C09", "C10", "C11", "C
 
 
 # ---- per-property operation tables (small cubes; the point is the object's life cycle, not the numerics) -------------
-def _cube(rng, nt, dtype="int16", nodata=-9999, ny=2, nx=3, order=("time", "y", "x"), with_attr=True, binary=False):
+def _cube(rng, nt, dtype="int16", nodata=-9999, ny=2, nx=3, order=("time", "y", "x"), with_attr=True, binary=False, hostile_pixels=False):
     import pandas as pd
     import xarray as xr
 
@@ -183,6 +183,10 @@ def _cube(rng, nt, dtype="int16", nodata=-9999, ny=2, nx=3, order=("time", "y", 
     else:
         data = np.round(3000 + 2000 * np.sin(2 * np.pi * t / 9.0)[:, None, None] + rng.normal(0, 300, (nt, ny, nx)))
         data[rng.random(data.shape) < 0.1] = nodata
+        if hostile_pixels and ny * nx >= 6:  # degenerate pixels next to ordinary ones: nothing observed, constant, all zero
+            data[:, 0, 0] = nodata
+            data[:, -1, -1] = 1234
+            data[:, 0, -1] = 0
         data = data.astype(dtype)
     da = xr.DataArray(data, dims=["time", "y", "x"], coords={"time": pd.date_range("2001-01-01", periods=nt, freq="10D"), "y": np.arange(ny) * 1.0, "x": np.arange(nx) * 1.0},
                       attrs={"nodata": nodata} if with_attr else {}, name="band")
@@ -197,7 +201,7 @@ def _ops(pid, rng, nt):
     groups = (np.arange(nt) % 3).astype("int16")
     if pid in ("C02", "C03", "C04", "C05", "C06"):
         def lcr(v):
-            return lambda d: d.hdc.whit.whitsvc(nodata=ND, lc=xr.DataArray(np.full((d.sizes["y"], d.sizes["x"]), v), dims=["y", "x"]), p=0.8)
+            return lambda d: d.hdc.whit.whitsvc(nodata=ND, lc=xr.DataArray(np.full(tuple(d.sizes[k] for k in d.dims if k != "time"), v), dims=[k for k in d.dims if k != "time"]), p=0.8)
         if pid == "C04":
             return {"whitsvc_lc_high": lcr(0.9), "whitsvc_lc_low": lcr(0.1), "whitsvc": lambda d: d.hdc.whit.whitsvc(nodata=ND, srange=srange),
                     "whitsvc_p": lambda d: d.hdc.whit.whitsvc(nodata=ND, srange=srange + 0.25, p=0.8)}
@@ -222,9 +226,13 @@ def _ops(pid, rng, nt):
         return {"mktrend": lambda d: d.hdc.algo.mktrend()}
     if pid == "C15":
         return {"autocorr": lambda d: d.hdc.algo.autocorr()}
+    if pid == "C12":  # cheap operations of every kind of code path (njit driver, gufunc through apply_ufunc, map_blocks)
+        return {"autocorr": lambda d: d.hdc.algo.autocorr(), "rolling_sum": lambda d: d.hdc.rolling.sum(3), "mktrend": lambda d: d.hdc.algo.mktrend(),
+                "mean_grp": lambda d: d.hdc.algo.mean_grp(groups), "whits": lambda d: d.hdc.whit.whits(nodata=ND, s=10.0)}
     if pid == "C16":
         def zm(d):
-            zones = xr.DataArray((np.arange(d.sizes["y"] * d.sizes["x"]).reshape(d.sizes["y"], d.sizes["x"]) % 3).astype("int16"), dims=["y", "x"], attrs={"nodata": -1})
+            py, px = [k for k in d.dims if k != "time"]
+            zones = xr.DataArray((np.arange(d.sizes[py] * d.sizes[px]).reshape(d.sizes[py], d.sizes[px]) % 3).astype("int16"), dims=[py, px], attrs={"nodata": -1})
             return d.hdc.zonal.mean(zones, [0, 1, 2])
         return {"zonal_mean": zm}
     if pid == "C17":
@@ -251,6 +259,9 @@ def shard(spec, R, pid):
     from . import harness as H
 
     rng = np.random.default_rng([spec["seed"], 77, int(pid[1:]), spec.get("sub", 0)])
+    if spec.get("mode") == "present":
+        from . import present
+        return present.shard(spec, R, pid)
     if pid == "C11":
         return shard_c11(spec, R, rng)
     for k in range(spec.get("concurrent", 2)):
